@@ -326,7 +326,56 @@ def rule_name(ctx):
     ctx.check(ok, "C04.ACC", g.short, "each constructed driver reports the name it was constructed with", "Driver.name does not return the name set at construction (two drivers 'A' and 'B' constructed)", fi=g, text="name-getter")
 
 
+def rule_wire(ctx):
+    """The direction of a message is a property of its kind, not of its content: a message parsed off the wire routes by
+    the flags of its class whatever attributes the peer put into the element (a peer must not be able to re-label a
+    client message as device-originated, or hide it from the devices, by naming an attribute like a routing flag)."""
+    from ..absint import Frame
+    from .c03 import parse_opts, seed_registry, xml_element
+    from .common import msg_base
+    p = ctx.p
+    regs, opts = parse_opts(p)
+    base = msg_base(p)
+    f = base.find_method("from_xml")
+    if f is None:
+        raise Undecided("IndiMessage.from_xml missing")
+    hostile = {"from_client": "", "from_device": "1", "vendor": "acme"}
+    n = 0
+    for ci in regs:
+        sig = p.init_chain_signature(ci)
+        names = [n_ for n_ in sig.named() if n_ not in ("children", "value")]
+        attrib = {n_: ("Also" if n_ == "value" else f"{n_}-text") for n_ in names}
+        attrib.update(hostile)
+        tag = lower_first(ci.name)
+        want = (bool(flag(p, ci, "from_client")), bool(flag(p, ci, "from_device")))
+        got = []
+
+        def run(it: Interp, ci=ci, attrib=attrib, tag=tag, got=got):
+            seed_registry(it, p, regs)
+            el = xml_element(tag, attrib, "Also" if tag == "enableBLOB" else None, [])
+            r = it.run_function(Fn(f, Cls(base)), [el], {})
+            fr = Frame(None, base.module, {})
+            got.append(tuple(it.get_attr(r, a, None, fr) for a in ("from_client", "from_device")))
+            return Const(None)
+
+        paths = explore(p, run, opts)
+        ctx.paths_enumerated += len(paths)
+        inst = f"{f.short}[<{tag}>]"
+        if len(paths) != 1 or paths[0].outcome != "return" or len(got) != 1:
+            # kinds whose constructor refuses this element (e.g. a vector without children) say nothing about routing
+            if len(paths) == 1 and paths[0].outcome == "raise":
+                continue
+            ctx.undecided("C04.WIRE", inst, f"parsing <{tag}> with extra attributes is not decided by constant evaluation ({len(paths)} paths)", fi=f)
+            continue
+        n += 1
+        # the very flag objects of the class (True / False), not attribute text that happens to have the same truth value
+        ok = all(isinstance(v, Const) and isinstance(v.v, bool) and v.v is w for v, w in zip(got[0], want))
+        ctx.check(ok, "C04.WIRE", inst, f"routes as its class says (from_client={want[0]}, from_device={want[1]}) whatever attributes the element carries", f"<{tag} from_client=\"\" from_device=\"1\" ...> parses to a message whose routing flags read from_client={show(got[0][0])}, from_device={show(got[0][1])}; its class says {want}: a peer re-labels the direction of its message through an attribute", fi=f, text=f"wire-flags:{tag}", witness=f'<{tag} from_client="" from_device="1" .../>')
+    ctx.floor("C04.WIRE", "message kinds parsed with hostile attributes", n, 12)
+
+
 RULES = [
+    ("C04.WIRE", rule_wire, "a parsed message routes by the direction flags of its class, whatever attributes the element carries"),
     ("C04.DIR", rule_dir, "direction flags of every message class equal the INDI direction table"),
     ("C04.DEV", rule_dev, "from-client branch: each non-sender device that accepts message.device gets the message exactly once, nobody else; no client gets device-bound messages"),
     ("C04.ISOLATED", rule_isolated, "two routers in one process are independent: per-router tables, no cross-delivery"),
